@@ -324,10 +324,18 @@ def _sel_args(c):
 
 def _identity_guard(f) -> bool:
     """some `if` whose test implies `k <= 1` for a parameter k (the test itself, or a conjunct of an `and`)"""
+    # locals that are plain copies of a parameter (inlined helpers bind their parameters to locals)
+    copies = set()
+    for _ in range(3):
+        for s_ in ast.walk(f.node):
+            if isinstance(s_, ast.Assign) and len(s_.targets) == 1 and isinstance(s_.targets[0], ast.Name) and isinstance(s_.value, ast.Name) \
+                    and (s_.value.id in f.params or s_.value.id in copies):
+                copies.add(s_.targets[0].id)
+
     def implies_single_fold(t) -> bool:
         if isinstance(t, ast.BoolOp) and isinstance(t.op, ast.And):
             return any(implies_single_fold(v) for v in t.values)
-        if isinstance(t, ast.Compare) and len(t.ops) == 1 and isinstance(t.left, ast.Name) and t.left.id in f.params \
+        if isinstance(t, ast.Compare) and len(t.ops) == 1 and isinstance(t.left, ast.Name) and (t.left.id in f.params or t.left.id in copies) \
                 and isinstance(t.comparators[0], ast.Constant):
             op, c = t.ops[0], t.comparators[0].value
             return (isinstance(op, (ast.LtE, ast.Eq)) and c in (0, 1)) or (isinstance(op, ast.Lt) and c in (1, 2))
